@@ -82,7 +82,9 @@ Definition target_prefixes (t : str) : list str :=
      SNN add_argument("--n", type=C)              C(sub: D(sub: E))      typehint action n
      GN  add_class_arguments(C, n)                C(child: D)            typehint action n.child + group n
      GNN add_class_arguments(C, n)                C(child: D(sub: E))    typehint action n.child + group n *)
-Inductive shape := ShG | ShS | ShSN | ShSNN | ShGN | ShGNN.
+Inductive shape := ShG | ShS | ShSN | ShSNN | ShGN | ShGNN
+                 | ShGI.   (* add_class_arguments(C, n, instantiate=False): never constructed, not a component, cannot be a source;
+                              its parameters are plain cfg entries, link targets that only the FINAL pass can fill *)
 Record decl := { d_name : str; d_shape : shape }.
 
 Inductive ckind := KType | KGroup.
@@ -94,7 +96,7 @@ Definition dotted (l : list str) : str := join_dot l.
 Definition type_comps (d : decl) : list comp :=
   let n := d_name d in
   match d_shape d with
-  | ShG => []
+  | ShG | ShGI => []
   | ShS => [{| c_dest := n; c_kind := KType; c_units := [n] |}]
   | ShSN => [{| c_dest := n; c_kind := KType; c_units := [dotted [n; s_init_args; s_sub]; n] |}]
   | ShSNN => [{| c_dest := n; c_kind := KType;
@@ -106,7 +108,7 @@ Definition type_comps (d : decl) : list comp :=
 
 Definition group_comps (d : decl) : list comp :=
   match d_shape d with
-  | ShG | ShGN | ShGNN => [{| c_dest := d_name d; c_kind := KGroup; c_units := [d_name d] |}]
+  | ShG | ShGN | ShGNN => [{| c_dest := d_name d; c_kind := KGroup; c_units := [d_name d] |}]   (* ShGI: no instantiate_class *)
   | _ => []
   end.
 
@@ -269,7 +271,8 @@ Definition key_leaf (k : str) : str := last (split_key k) [].          (* split_
 Inductive value := VBase (b : base) | VFn (j : nat) (args : list base).
 Inductive event :=
 | ENew (u : str) (args : list (nat * value))      (* constructor of unit u; (parameter index, value) for set link parameters *)
-| ECall (j : nat) (args : list base).             (* compute_fn of link j *)
+| ECall (j : nat) (args : list base)              (* compute_fn of link j *)
+| ECfg (u : str) (args : list (nat * value)).     (* what the returned cfg holds for the link parameters of the never instantiated group u *)
 
 Inductive outcome := OOk | OLinkErr (k : nat) | OExc | OUnmodelled.
 
@@ -426,7 +429,7 @@ Definition log_has_ns (log : list event) : bool :=
                                                        | VBase (BNs _) => true
                                                        | _ => false
                                                        end) args
-                    | ECall _ _ => false
+                    | ECall _ _ | ECfg _ _ => false
                     end) log.
 
 (* sort received parameters by index for comparison with the observation *)
@@ -439,9 +442,11 @@ Definition norm_event (e : event) : event :=
   match e with
   | ENew u args => ENew u (fold_right insert_arg [] args)
   | ECall _ _ => e
+  | ECfg u args => ECfg u (fold_right insert_arg [] args)
   end.
 
-Definition instantiate (cs : list comp) (ls : list link) : outcome * list event :=
+(* sinks: the groups declared with instantiate=False; after the final pass the returned cfg is read for each of them *)
+Definition instantiate (cs : list comp) (sinks : list str) (ls : list link) : outcome * list event :=
   match inst_order cs ls with
   | Order order =>
       match comp_loop cs ls (comp_sequence cs order) init_state with
@@ -450,18 +455,21 @@ Definition instantiate (cs : list comp) (ls : list link) : outcome * list event 
           match apply_final cs ls order st with
           | None => (OExc, [])
           | Some st' => if log_has_ns (st_log st') then (OUnmodelled, [])
-                        else (OOk, map norm_event (rev (st_log st')))
+                        else (OOk, map norm_event (rev (st_log st') ++ map (fun n => ECfg n (received ls n st')) sinks))
           end
       end
   | _ => (OUnmodelled, [])       (* unreachable after add_links = None *)
   end.
+
+Definition sinks_of (ds : list decl) : list str :=
+  flat_map (fun d => match d_shape d with ShGI => [d_name d] | _ => [] end) ds.
 
 (* the whole scenario: declare, link in the given order, parse, instantiate_classes *)
 Definition run (ds : list decl) (ls : list link) : outcome * list event :=
   let cs := components ds in
   match add_links cs ls with
   | Some k => (OLinkErr k, [])
-  | None => instantiate cs ls
+  | None => instantiate cs (sinks_of ds) ls
   end.
 
 (* ---- the guard of the proved ordering theorem ---------------------------------------------- *)
